@@ -5,6 +5,11 @@ on every package saved from: a plain re-save of every readable fixture; the API-
 its second generation (save -> reopen -> edit -> save); the tile-boundary shape family; and every
 distinct state reached by the C03 / C12 / C19 explorers up to the tier's depth (new tables, sheets,
 merges, structural edits, renames).
+
+Besides resolution of references, identifiers, metadata listing and tile accounting, the validator
+demands that the archive header of every object the library created or rewrote lists (object_references)
+every reference that object holds - what copy_object_to_iwa_file / create_iwa_segment are there to
+maintain; objects carried over unchanged from the source document are exempt.
 """
 from __future__ import annotations
 
